@@ -79,7 +79,24 @@ def gen_plan(ch: Chooser, tier: str) -> dict[str, Any]:
             t = round(ch.float(4.0, plan['horizon']), 6)
             plan['actions'].append({'t': t, 'do': 'patch', 'name': name, 'patch': {'metadata': {'labels': {'run': 'no'}}}})
         plan['actions'].sort(key=lambda a: a['t'])
+    # (d) events of the daemons' objects that are in the workers at the very instant the operator pauses: with equal
+    #     delivery delays the peering worker and the objects' workers leave their batching windows together, and the
+    #     daemons get their stop flag from the processing of those events, not from the pausing stopper
+    sets = [a for a in plan['actions'] if a['do'] == 'peer-set' and a.get('identity') == 'rival']
+    if plan.get('peering') and sets and ch.bool(0.5):
+        t = sets[0]['t']
+        lat = ch.choice([0.002, 0.01])
+        plan['net']['watch_lat_lo'] = plan['net']['watch_lat_hi'] = lat
+        sets[0]['priority'] = 100
+        for a in plan['actions']:
+            if a['do'] == 'peer-clear' and a.get('identity') == 'rival':
+                a['t'] = round(t + ch.choice([6.0, 12.0]), 6)
+        for name in names:
+            plan['actions'].append({'t': t, 'do': 'patch', 'name': name, 'patch': {'spec': {'bump': ch.int(100, 999)}}})
+        plan['actions'].sort(key=lambda a: a['t'])
     return plan
+
+
 def oracle(run: runner.Run, oc: Outcome) -> None:
     opid = 'op1'
     op = run.op(opid)
